@@ -165,112 +165,57 @@ Qed.
 Definition cov (cl : list wentry) (fs : list file) : Prop :=
   forall k t v, lg (replay_from [] cl) k t = Some v -> files_get fs k t = Some v.
 
-(** ... and everything in the snapshot store is. *)
-Definition scov (sn : log) (fs : list file) : Prop :=
-  forall k t v, lg sn k t = Some v -> files_get fs k t = Some v.
-
-(** The invariant.  [T] ("tainted") is a ghost flag of the proof, not of the model: it is set
-    when a snapshot starts on a holed segment with entries behind the hole (the snapshot store
-    then holds acknowledged operations that no reachable WAL entry backs) and cleared when
-    that snapshot's commit has removed the closed segments.  While [T] holds the WAL-level
-    facts about the snapshot store are not available (and a crash would lose data), only what
-    is needed to carry the content through the commit. *)
-Definition InvT (d : dstate) (T : bool) : Prop :=
+Definition Inv (d : dstate) : Prop :=
   let s := mem d in
-  (phase d = 0%N /\ T = false /\ snapshotting s = false /\ snap s = [] /\
-     eqv (hot s) (replay_from [] (closed d ++ opn d ++ gh d))) \/
-  (phase d = 1%N /\ hole d = None /\ snapshotting s = true /\ nodel (opn d) /\
-     eqv (hot s) (replay_from [] (opn d)) /\
-     (T = false -> eqv (snap s) (replay_from [] (closed d)))) \/
-  (phase d = 2%N /\ hole d = None /\ snapshotting s = true /\ nodel (opn d) /\
-     eqv (hot s) (replay_from [] (opn d)) /\ scov (snap s) (files s) /\
-     (T = false -> eqv (snap s) (replay_from [] (closed d)) /\ cov (closed d) (files s))) \/
-  (phase d = 3%N /\ hole d = None /\ snapshotting s = false /\ snap s = [] /\ nodel (opn d) /\
-     eqv (hot s) (replay_from [] (opn d)) /\
-     (T = false -> cov (closed d) (files s))).
-
-Definition Inv (d : dstate) : Prop := InvT d false.
+  (phase d = 0%N /\ snapshotting s = false /\ snap s = [] /\ eqv (hot s) (replay_from [] (closed d ++ opn d))) \/
+  (phase d = 1%N /\ snapshotting s = true /\ eqv (snap s) (replay_from [] (closed d)) /\ nodel (opn d) /\
+     eqv (hot s) (replay_from [] (opn d))) \/
+  (phase d = 2%N /\ snapshotting s = true /\ eqv (snap s) (replay_from [] (closed d)) /\ nodel (opn d) /\
+     eqv (hot s) (replay_from [] (opn d)) /\ cov (closed d) (files s)) \/
+  (phase d = 3%N /\ snapshotting s = false /\ snap s = [] /\ nodel (opn d) /\
+     eqv (hot s) (replay_from [] (opn d)) /\ cov (closed d) (files s)).
 
 Lemma inv_init : Inv dinit.
 Proof. left. repeat split. Qed.
 
 Lemma inv_recover d : Inv (recover d).
-Proof.
-  left. cbn [recover mem closed opn phase hot snap snapshotting]. repeat split.
-  unfold gh. cbn [recover hole]. intros k t.
-  destruct (hole d) as [[|e g]|]; rewrite ?app_nil_r; reflexivity.
-Qed.
+Proof. left. cbn. repeat split. rewrite app_nil_r. intros k t; reflexivity. Qed.
 
-Lemma inv_recover_torn d : Inv (recover_torn d).
+(** Durability: recovering from a crash of an invariant state shows the same content. *)
+Lemma durable d : Inv d -> forall k t, abs (mem (recover d)) k t = abs (mem d) k t.
 Proof.
-  left. cbn [recover_torn recover mem closed opn phase hot snap snapshotting]. repeat split.
-  unfold gh. cbn [recover_torn hole]. intros k t. rewrite !app_nil_r. reflexivity.
-Qed.
-
-(** Durability: recovering from a crash of an untainted invariant state with nothing behind a
-    hole shows the same content. *)
-Lemma durable d : Inv d -> gh d = [] -> forall k t, abs (mem (recover d)) k t = abs (mem d) k t.
-Proof.
-  intros HI Hg k t. rewrite !abs_ov. cbn [recover mem hot snap files log_get].
-  destruct HI as [[_ [_ [_ [Hs Hh]]]] | [[_ [_ [_ [Hnd [Hh Hsn]]]]] | [[_ [_ [_ [Hnd [Hh [_ Hsn]]]]]] | [_ [_ [_ [Hs [Hnd [Hh Hc]]]]]]]]].
-  - rewrite Hs. cbn. rewrite Hg, app_nil_r in Hh. rewrite <- (Hh k t). reflexivity.
-  - specialize (Hsn eq_refl).
-    rewrite replay_from_app, (replay_nodel _ Hnd), <- (Hh k t), <- (Hsn k t).
+  intros HI k t. rewrite !abs_ov. cbn [recover mem hot snap files log_get].
+  destruct HI as [[_ [_ [Hs Hh]]] | [[_ [_ [Hsn [Hnd Hh]]]] | [[_ [_ [Hsn [Hnd [Hh _]]]]] | [_ [_ [Hs [Hnd [Hh Hc]]]]]]]].
+  - rewrite Hs. cbn. rewrite <- (Hh k t). reflexivity.
+  - rewrite replay_from_app, (replay_nodel _ Hnd), <- (Hh k t), <- (Hsn k t).
     destruct (log_get (hot (mem d)) k t); reflexivity.
-  - destruct (Hsn eq_refl) as [Hsn' _].
-    rewrite replay_from_app, (replay_nodel _ Hnd), <- (Hh k t), <- (Hsn' k t).
+  - rewrite replay_from_app, (replay_nodel _ Hnd), <- (Hh k t), <- (Hsn k t).
     destruct (log_get (hot (mem d)) k t); reflexivity.
-  - specialize (Hc eq_refl).
-    rewrite Hs. cbn. rewrite replay_from_app, (replay_nodel _ Hnd), <- (Hh k t).
+  - rewrite Hs. cbn. rewrite replay_from_app, (replay_nodel _ Hnd), <- (Hh k t).
     destruct (lg (hot (mem d)) k t); cbn; [reflexivity|].
     destruct (lg (replay_from [] (closed d)) k t) eqn:E; cbn; [|reflexivity].
     symmetry. apply Hc. exact E.
 Qed.
 
 (** ** Safe histories: deletes and snapshot starts only when no snapshot commit is in flight,
-    no failed snapshots, and — torn tails — a crash (plain or torn) only while nothing
-    acknowledged sits behind a hole: after a torn-tail crash followed by acknowledged writes or
-    deletes, the next crash may come only after a NON-EMPTY snapshot has been started (which
-    closes the holed segment) and committed through WAL.Remove.  A torn-tail crash itself, and
-    any number of them in a row, is always allowed where a plain crash is. *)
-Definition tnext (d : dstate) (T : bool) (o : dop) : bool :=
-  match o with
-  | DSnapBegin => if N.eqb (phase d) 0 then match gh d with [] => T | _ :: _ => true end else T
-  | DCommitWalRemove => if N.eqb (phase d) 3 then false else T
-  | DCrash | DCrashTorn => false
-  | _ => T
-  end.
-
-Definition safe_op (d : dstate) (T : bool) (o : dop) : Prop :=
+    no failed snapshots.  Crashes — plain ([DCrash]) and with a torn in-flight WAL record
+    ([DCrashTorn]) — are unrestricted. *)
+Definition safe_op (d : dstate) (o : dop) : Prop :=
   match o with
   | DDelete _ _ _ => phase d = 0%N
   | DSnapBegin => phase d = 0%N
   | DSnapFail => False
-  | DCrash | DCrashTorn => T = false /\ gh d = []
-  | DCommitReplace => T = true -> phase d = 1%N -> snap (mem d) <> []
   | _ => True
   end.
 
-Fixpoint dsafeT (h : list dop) (d : dstate) (T : bool) : Prop :=
+Fixpoint dsafe (h : list dop) (d : dstate) : Prop :=
   match h with
   | [] => True
-  | o :: r => safe_op d T o /\ dsafeT r (fst (dstep d o)) (tnext d T o)
-  end.
-
-Definition dsafe (h : list dop) (d : dstate) : Prop := dsafeT h d false.
-
-Fixpoint trun (h : list dop) (d : dstate) (T : bool) : bool :=
-  match h with
-  | [] => T
-  | o :: r => trun r (fst (dstep d o)) (tnext d T o)
+  | o :: r => safe_op d o /\ dsafe r (fst (dstep d o))
   end.
 
 Lemma cov_files_get cl fs fs' :
   (forall k t, files_get fs' k t = files_get fs k t) -> cov cl fs -> cov cl fs'.
-Proof. intros H C k t v E. rewrite H. apply C. exact E. Qed.
-
-Lemma scov_files_get sn fs fs' :
-  (forall k t, files_get fs' k t = files_get fs k t) -> scov sn fs -> scov sn fs'.
 Proof. intros H C k t v E. rewrite H. apply C. exact E. Qed.
 
 Lemma compact_files_get s i n k t :
@@ -296,113 +241,74 @@ Proof. intros H k t. rewrite !log_get_app, (H k t). reflexivity. Qed.
 Lemma nodel_app a b : nodel a -> nodel b -> nodel (a ++ b).
 Proof. apply Forall_app_2 || (intros; apply Forall_app; split; assumption). Qed.
 
-(** An append extends the segment's logical content (reachable part ++ part behind the hole)
-    at its end, wherever the bytes land. *)
-Lemma wal_append_all d e :
-  closed d ++ fst (wal_append d e) ++ match snd (wal_append d e) with Some g => g | None => [] end =
-  (closed d ++ opn d ++ gh d) ++ [e].
-Proof.
-  unfold wal_append, gh. destruct (hole d) as [g|]; cbn [fst snd]; rewrite ?app_nil_r, <- ?app_assoc; reflexivity.
-Qed.
-
-Lemma wal_append_nohole d e : hole d = None -> wal_append d e = (opn d ++ [e], None).
-Proof. intros H. unfold wal_append. rewrite H. reflexivity. Qed.
-
-Lemma inv_step d T o : InvT d T -> safe_op d T o -> InvT (fst (dstep d o)) (tnext d T o).
+Lemma inv_step d o : Inv d -> safe_op d o -> Inv (fst (dstep d o)).
 Proof.
   intros HI Hs. destruct o as [b|ks lo hi| | | | | |i n| |].
   - (* write *)
-    cbn [dstep tnext].
-    destruct HI as [[Hp [HT [H1 [H2 H3]]]] | [[Hp [Hh [H1 [H3 [H4 H2]]]]] | [[Hp [Hh [H1 [H3 [H4 [H5 H2]]]]]] | [Hp [Hh [H1 [H2 [H3 [H4 H5]]]]]]]]].
-    + pose proof (wal_append_all d (WWrite b)) as WA.
-      destruct (wal_append d (WWrite b)) as [o' h'] eqn:EW. cbn [fst snd] in *.
-      left. unfold gh. cbn [fst mem closed opn phase hole step hot snap snapshotting files].
-      repeat split; try assumption. rewrite WA, replay_from_app. cbn [replay_from]. apply eqv_app. exact H3.
-    + rewrite (wal_append_nohole d _ Hh). cbn [fst].
-      right; left. cbn [mem closed opn phase hole step fst hot snap snapshotting files].
-      repeat split; try assumption.
+    cbn [dstep fst]. unfold Inv in *. cbn [mem closed opn phase step fst hot snap snapshotting files].
+    destruct HI as [[Hp [H1 [H2 H3]]] | [[Hp [H1 [H2 [H3 H4]]]] | [[Hp [H1 [H2 [H3 [H4 H5]]]]] | [Hp [H1 [H2 [H3 [H4 H5]]]]]]]].
+    + left. repeat split; try assumption. rewrite app_assoc, replay_from_app. cbn [replay_from]. apply eqv_app. exact H3.
+    + right; left. repeat split; try assumption.
       * apply nodel_app; [exact H3|repeat constructor].
       * rewrite replay_from_app. cbn [replay_from]. apply eqv_app. exact H4.
-    + rewrite (wal_append_nohole d _ Hh). cbn [fst].
-      right; right; left. cbn [mem closed opn phase hole step fst hot snap snapshotting files].
-      split; [exact Hp|]. split; [reflexivity|]. split; [exact H1|]. split; [|split; [|split; [exact H5|exact H2]]].
+    + right; right; left. repeat split; try assumption.
       * apply nodel_app; [exact H3|repeat constructor].
       * rewrite replay_from_app. cbn [replay_from]. apply eqv_app. exact H4.
-    + rewrite (wal_append_nohole d _ Hh). cbn [fst].
-      right; right; right. cbn [mem closed opn phase hole step fst hot snap snapshotting files].
-      repeat split; try assumption.
+    + right; right; right. repeat split; try assumption.
       * apply nodel_app; [exact H3|repeat constructor].
       * rewrite replay_from_app. cbn [replay_from]. apply eqv_app. exact H4.
-  - (* delete at phase 0 *)
-    cbn [dstep tnext]. cbn [safe_op] in Hs.
-    destruct HI as [[Hp [HT [H1 [H2 H3]]]] | [[Hp _] | [[Hp _] | [Hp _]]]]; try (rewrite Hs in Hp; discriminate).
+  - (* delete at phase 0; no WAL entry when no hot key is listed *)
+    cbn [safe_op] in Hs. cbn [dstep fst]. unfold Inv in *. cbn [mem closed opn phase step fst hot snap snapshotting files].
+    destruct HI as [[Hp [H1 [H2 H3]]] | [[Hp _] | [[Hp _] | [Hp _]]]]; try (rewrite Hs in Hp; discriminate).
     pose proof (delete_dk_eqv _ _ ks lo hi H3) as DK.
+    left. repeat split; try assumption.
     destruct (filter (has_key (hot (mem d))) ks) as [|k0 dk] eqn:EF.
-    + left. cbn [fst mem closed opn phase hole step hot snap snapshotting files].
-      repeat split; try assumption.
-      intros k t. rewrite (DK k t). rewrite log_delete_get. unfold hit, in_keys. cbn [existsb andb]. reflexivity.
-    + set (e := WDelete (k0 :: dk) lo hi) in *.
-      pose proof (wal_append_all d e) as WA.
-      destruct (wal_append d e) as [o' h'] eqn:EW. cbn [fst snd] in *.
-      left. unfold gh. cbn [fst mem closed opn phase hole step hot snap snapshotting files].
-      repeat split; try assumption.
-      rewrite WA, replay_from_app. unfold e. cbn [replay_from]. exact DK.
+    + intros k t. rewrite (DK k t). rewrite log_delete_get. unfold hit, in_keys. cbn [existsb andb]. reflexivity.
+    + rewrite app_assoc, replay_from_app. cbn [replay_from]. exact DK.
   - (* snapbegin at phase 0 *)
     cbn [safe_op] in Hs.
-    destruct HI as [[Hp [HT [H1 [H2 H3]]]] | [[Hp _] | [[Hp _] | [Hp _]]]]; try (rewrite Hs in Hp; discriminate).
-    unfold dstep, tnext. rewrite Hp. cbn [N.eqb Pos.eqb]. unfold step. rewrite H1, H2.
-    cbn [fst]. right; left. cbn [mem closed opn phase hole snapshotting snap hot].
+    unfold Inv in HI. destruct HI as [[Hp [H1 [H2 H3]]] | [[Hp _] | [[Hp _] | [Hp _]]]]; try (rewrite Hs in Hp; discriminate).
+    unfold dstep. rewrite Hp. cbn [N.eqb Pos.eqb]. unfold step. rewrite H1, H2.
+    cbn [fst]. right; left. cbn [mem closed opn phase snapshotting snap hot].
     repeat split; try assumption; try constructor; try (intros ? ?; reflexivity).
-    intros HT'. destruct (gh d) as [|e g] eqn:G; [|discriminate].
-    rewrite app_nil_r in H3. exact H3.
   - (* commit: replace *)
-    cbn [tnext]. unfold dstep. destruct (N.eqb (phase d) 1) eqn:P; [|exact HI]. apply N.eqb_eq in P.
-    destruct HI as [[Hp _] | [[Hp [Hh [H1 [H3 [H4 H2]]]]] | [[Hp _] | [Hp _]]]]; try (rewrite P in Hp; discriminate).
+    unfold dstep. destruct (N.eqb (phase d) 1) eqn:P; [|exact HI]. apply N.eqb_eq in P.
+    unfold Inv in HI. destruct HI as [[Hp _] | [[Hp [H1 [H2 [H3 H4]]]] | [[Hp _] | [Hp _]]]]; try (rewrite P in Hp; discriminate).
     destruct (snap (mem d)) as [|e l] eqn:Sn; cbn [fst].
-    + cbn [safe_op] in Hs. destruct T; [exfalso; apply (Hs eq_refl P); exact Sn|].
-      specialize (H2 eq_refl).
-      left. unfold gh. cbn [mem closed opn phase hole snapshotting snap hot]. rewrite Hh, app_nil_r. repeat split.
+    + left. cbn [mem closed opn phase snapshotting snap hot]. repeat split.
       intros k t. rewrite replay_from_app, (replay_nodel _ H3), <- (H4 k t), <- (H2 k t).
       cbn [log_get]. destruct (lg (hot (mem d)) k t); reflexivity.
-    + right; right; left. cbn [mem closed opn phase hole snapshotting snap hot files].
-      assert (SC : scov (e :: l) (files (mem d) ++ [{| fpts := e :: l; ftomb := [] |}])).
-      { intros k t v E. rewrite files_get_app. cbn [files_get]. unfold file_get. cbn [ftomb fpts tombed existsb].
-        rewrite E. reflexivity. }
-      split; [reflexivity|]. split; [exact Hh|]. split; [reflexivity|]. split; [exact H3|]. split; [exact H4|].
-      split; [exact SC|]. intros HT. split; [exact (H2 HT)|].
-      intros k t v E. apply SC. rewrite (H2 HT k t). exact E.
+    + right; right; left. cbn [mem closed opn phase snapshotting snap hot files].
+      repeat split; try assumption; try (rewrite <- Sn; assumption).
+      intros k t v E. rewrite files_get_app. cbn [files_get]. unfold file_get. cbn [ftomb fpts tombed existsb].
+      rewrite <- (H2 k t) in E. rewrite E. reflexivity.
   - (* commit: clear *)
-    cbn [tnext]. unfold dstep. destruct (N.eqb (phase d) 2) eqn:P; [|exact HI]. apply N.eqb_eq in P.
-    destruct HI as [[Hp _] | [[Hp _] | [[Hp [Hh [H1 [H3 [H4 [H5 H2]]]]]] | [Hp _]]]]; try (rewrite P in Hp; discriminate).
-    right; right; right. cbn [fst mem closed opn phase hole snapshotting snap hot files]. repeat split; try assumption.
-    intros HT. apply (H2 HT).
+    unfold dstep. destruct (N.eqb (phase d) 2) eqn:P; [|exact HI]. apply N.eqb_eq in P.
+    unfold Inv in HI. destruct HI as [[Hp _] | [[Hp _] | [[Hp [H1 [H2 [H3 [H4 H5]]]]] | [Hp _]]]]; try (rewrite P in Hp; discriminate).
+    right; right; right. cbn [fst mem closed opn phase snapshotting snap hot files]. repeat split; assumption.
   - (* commit: wal remove *)
-    unfold tnext, dstep. destruct (N.eqb (phase d) 3) eqn:P; [|exact HI]. apply N.eqb_eq in P.
-    destruct HI as [[Hp _] | [[Hp _] | [[Hp _] | [Hp [Hh [H1 [H2 [H3 [H4 H5]]]]]]]]]; try (rewrite P in Hp; discriminate).
-    left. unfold gh. cbn [fst mem closed opn phase hole app]. rewrite Hh, app_nil_r. repeat split; assumption.
+    unfold dstep. destruct (N.eqb (phase d) 3) eqn:P; [|exact HI]. apply N.eqb_eq in P.
+    unfold Inv in HI. destruct HI as [[Hp _] | [[Hp _] | [[Hp _] | [Hp [H1 [H2 [H3 [H4 H5]]]]]]]]; try (rewrite P in Hp; discriminate).
+    left. cbn [fst mem closed opn phase app]. repeat split; assumption.
   - destruct Hs.
   - (* compact *)
-    cbn [tnext]. unfold dstep. destruct (step (mem d) (Compact i n)) as [s' ok] eqn:E. cbn [fst].
+    unfold dstep. destruct (step (mem d) (Compact i n)) as [s' ok] eqn:E. cbn [fst].
     assert (Es : s' = fst (step (mem d) (Compact i n))) by (rewrite E; reflexivity).
     destruct (compact_keeps (mem d) i n) as [K1 [K2 K3]]. rewrite <- Es in K1, K2, K3.
     assert (KF : forall k t, files_get (files s') k t = files_get (files (mem d)) k t)
       by (intros; rewrite Es; apply compact_files_get).
-    unfold InvT in *. unfold with_mem, gh in *. cbn [mem closed opn phase hole]. rewrite K1, K2, K3.
-    destruct HI as [H | [H | [[Hp [Hh [H1 [H3 [H4 [H5 H2]]]]]] | [Hp [Hh [H1 [H2 [H3 [H4 H5]]]]]]]]].
+    unfold Inv in *. unfold with_mem. cbn [mem closed opn phase]. rewrite K1, K2, K3.
+    destruct HI as [H | [H | [[Hp [H1 [H2 [H3 [H4 H5]]]]] | [Hp [H1 [H2 [H3 [H4 H5]]]]]]]].
     + left; exact H.
     + right; left; exact H.
-    + right; right; left. repeat split; try assumption.
-      * eapply scov_files_get; [exact KF|exact H5].
-      * apply (H2 H).
-      * eapply cov_files_get; [exact KF|apply (H2 H)].
-    + right; right; right. repeat split; try assumption.
-      intros HT. eapply cov_files_get; [exact KF|exact (H5 HT)].
+    + right; right; left. repeat split; try assumption. eapply cov_files_get; [exact KF|exact H5].
+    + right; right; right. repeat split; try assumption. eapply cov_files_get; [exact KF|exact H5].
   - apply inv_recover.
-  - apply inv_recover_torn.
+  - apply inv_recover.
 Qed.
 
 (** Content after one safe step. *)
-Lemma dstep_abs d T o k t : InvT d T -> safe_op d T o ->
+Lemma dstep_abs d o k t : Inv d -> safe_op d o ->
   abs (mem (fst (dstep d o))) k t =
   match o with
   | DWrite b => overlay b (abs (mem d)) k t
@@ -411,10 +317,9 @@ Lemma dstep_abs d T o k t : InvT d T -> safe_op d T o ->
   end.
 Proof.
   intros HI Hs. destruct o as [b|ks lo hi| | | | | |i n| |].
-  - cbn [dstep]. destruct (wal_append d (WWrite b)). cbn [fst mem]. apply step_write_abs.
-  - cbn [dstep]. destruct (match filter (has_key (hot (mem d))) ks with [] => _ | _ :: _ => _ end). cbn [fst mem]. apply step_delete_abs.
-    cbn [safe_op] in Hs.
-    destruct HI as [[_ [_ [_ [H _]]]] | [[Hp _] | [[Hp _] | [Hp _]]]]; [exact H| | |]; rewrite Hs in Hp; discriminate.
+  - cbn [dstep fst mem]. apply step_write_abs.
+  - cbn [dstep fst mem]. apply step_delete_abs. cbn [safe_op] in Hs.
+    destruct HI as [[_ [_ [H _]]] | [[Hp _] | [[Hp _] | [Hp _]]]]; [exact H| | |]; rewrite Hs in Hp; discriminate.
   - cbn [safe_op] in Hs. unfold dstep. rewrite Hs. cbn [N.eqb]. destruct (step (mem d) SnapBegin) as [s' ok] eqn:E. cbn [fst mem].
     replace s' with (fst (step (mem d) SnapBegin)) by (rewrite E; reflexivity). apply step_snapbegin_abs.
   - unfold dstep. destruct (N.eqb (phase d) 1) eqn:P; [|reflexivity].
@@ -424,30 +329,29 @@ Proof.
       destruct (log_get (hot (mem d)) k t); [reflexivity|].
       destruct (log_get (e :: l) k t); reflexivity.
   - unfold dstep. destruct (N.eqb (phase d) 2) eqn:P; [|reflexivity]. apply N.eqb_eq in P.
-    destruct HI as [[Hp _] | [[Hp _] | [[Hp [Hh [H1 [H3 [H4 [H5 H2]]]]]] | [Hp _]]]]; try (rewrite P in Hp; discriminate).
+    destruct HI as [[Hp _] | [[Hp _] | [[Hp [H1 [H2 [H3 [H4 H5]]]]] | [Hp _]]]]; try (rewrite P in Hp; discriminate).
     cbn [fst mem]. rewrite !abs_ov. cbn [hot snap files]. cbn [log_get].
     destruct (lg (hot (mem d)) k t); cbn; [reflexivity|].
     destruct (lg (snap (mem d)) k t) eqn:E; cbn; [|reflexivity].
-    apply H5. exact E.
+    apply H5. rewrite <- (H2 k t). exact E.
   - unfold dstep. destruct (N.eqb (phase d) 3); reflexivity.
   - destruct Hs.
   - unfold dstep. destruct (step (mem d) (Compact i n)) as [s' ok] eqn:E. cbn [fst with_mem mem].
     replace s' with (fst (step (mem d) (Compact i n))) by (rewrite E; reflexivity). apply step_compact_abs.
-  - cbn [dstep fst]. cbn [safe_op] in Hs. destruct Hs as [HT Hg]. subst T. apply durable; assumption.
-  - cbn [dstep fst]. cbn [safe_op] in Hs. destruct Hs as [HT Hg]. subst T.
-    change (mem (recover_torn d)) with (mem (recover d)). apply durable; assumption.
+  - cbn [dstep fst]. apply durable. exact HI.
+  - cbn [dstep fst]. apply durable. exact HI.
 Qed.
 
-Theorem drun_refines h : forall d T L,
-  InvT d T -> (forall k t, abs (mem d) k t = log_get L k t) -> dsafeT h d T ->
-  InvT (drun h d) (trun h d T) /\ forall k t, abs (mem (drun h d)) k t = log_get (dspec_log h L) k t.
+Theorem drun_refines h : forall d L,
+  Inv d -> (forall k t, abs (mem d) k t = log_get L k t) -> dsafe h d ->
+  Inv (drun h d) /\ forall k t, abs (mem (drun h d)) k t = log_get (dspec_log h L) k t.
 Proof.
-  induction h as [|o h IH]; intros d T L HI HA HS; [split; assumption|].
-  destruct HS as [Ho HS]. unfold drun. cbn [fold_left trun]. fold (drun h (fst (dstep d o))).
-  pose proof (inv_step d T o HI Ho) as HI'.
+  induction h as [|o h IH]; intros d L HI HA HS; [split; assumption|].
+  destruct HS as [Ho HS]. unfold drun. cbn [fold_left]. fold (drun h (fst (dstep d o))).
+  pose proof (inv_step d o HI Ho) as HI'.
   assert (HA' : forall k t, abs (mem (fst (dstep d o))) k t =
           log_get (match o with DWrite b => L ++ b | DDelete ks lo hi => log_delete L ks lo hi | _ => L end) k t).
-  { intros k t. rewrite (dstep_abs d T o k t HI Ho). destruct o; try apply HA.
+  { intros k t. rewrite (dstep_abs d o k t HI Ho). destruct o; try apply HA.
     - unfold overlay. rewrite log_get_app, HA. reflexivity.
     - rewrite log_delete_get, HA. reflexivity. }
   destruct o; cbn [dspec_log]; apply IH; assumption.
@@ -455,32 +359,23 @@ Qed.
 
 Theorem ack_durable h :
   dsafe h dinit -> forall k t, abs (mem (drun h dinit)) k t = log_get (dspec_log h []) k t.
-Proof. intros HS. apply (drun_refines h dinit false [] inv_init (fun _ _ => eq_refl) HS). Qed.
+Proof. intros HS. apply (drun_refines h dinit [] inv_init (fun _ _ => eq_refl) HS). Qed.
 
 Theorem ack_durable_read h k lo hi asc :
   dsafe h dinit -> read (mem (drun h dinit)) k lo hi asc = spec_read (dspec_log h []) k lo hi asc.
 Proof. intros HS. apply read_eq_spec. intros t. apply ack_durable. exact HS. Qed.
 
-Lemma dsafeT_app h1 : forall h2 d T,
-  dsafeT (h1 ++ h2) d T <-> dsafeT h1 d T /\ dsafeT h2 (drun h1 d) (trun h1 d T).
+(** Histories of writes and crashes of either kind only are always safe: in particular the
+    shape of the repaired finding (write; torn-tail crash; write; crash). *)
+Lemma dsafe_writes_crashes h : forall d,
+  Forall (fun o => match o with DWrite _ | DCrash | DCrashTorn => True | _ => False end) h -> dsafe h d.
 Proof.
-  induction h1 as [|o h1 IH]; intros h2 d T; cbn [app dsafeT trun].
-  - unfold drun. cbn. tauto.
-  - unfold drun. cbn [fold_left]. fold (drun h1 (fst (dstep d o))). rewrite IH. tauto.
+  induction h as [|o h IH]; intros d HF; [exact I|].
+  inversion HF as [|? ? Ho HF']; subst. split; [|apply IH; exact HF'].
+  destruct o; try destruct Ho; exact I.
 Qed.
 
-(** The crash step: wherever [dsafe] allows a crash, recovery shows the content the running
-    engine showed. *)
-Theorem crash_preserves h :
-  dsafe (h ++ [DCrash]) dinit -> forall k t,
-  abs (mem (recover (drun h dinit))) k t = abs (mem (drun h dinit)) k t.
-Proof.
-  intros HS k t. apply dsafeT_app in HS. destruct HS as [H1 [[HT Hg] _]].
-  destruct (drun_refines h dinit false [] inv_init (fun _ _ => eq_refl) H1) as [HI _].
-  rewrite HT in HI. apply durable; assumption.
-Qed.
-
-(** ** The three ways the full statement fails (all confirmed on the real engine). *)
+(** ** The two ways the full statement fails (both confirmed on the real engine). *)
 Definition lost_write_witness : list dop :=
   [DWrite [(1%N, 1%Z, 10%Z)]; DSnapBegin; DSnapFail; DWrite [(1%N, 2%Z, 20%Z)];
    DSnapBegin; DCommitReplace; DCommitClear; DCommitWalRemove; DCrash].
@@ -498,75 +393,3 @@ Lemma lost_delete :
   abs (mem (drun lost_delete_witness dinit)) 1%N 5%Z = Some 7%Z /\
   log_get (dspec_log lost_delete_witness []) 1%N 5%Z = None.
 Proof. vm_compute. split; reflexivity. Qed.
-
-(** write A; write B in flight, its WAL record torn, crash + reopen; write C acknowledged by
-    the reopened engine; crash + reopen: C is gone (and A is still there). *)
-Definition torn_hole_witness : list dop :=
-  [DWrite [(1%N, 1%Z, 10%Z)]; DCrashTorn; DWrite [(1%N, 3%Z, 30%Z)]; DCrash].
-
-Lemma torn_hole :
-  abs (mem (drun torn_hole_witness dinit)) 1%N 3%Z = None /\
-  log_get (dspec_log torn_hole_witness []) 1%N 3%Z = Some 30%Z /\
-  abs (mem (drun torn_hole_witness dinit)) 1%N 1%Z = Some 10%Z.
-Proof. vm_compute. repeat split; reflexivity. Qed.
-
-(** ... and a deleted point comes back the same way. *)
-Definition torn_hole_delete_witness : list dop :=
-  [DWrite [(1%N, 1%Z, 10%Z)]; DCrashTorn; DDelete [1%N] 0%Z 5%Z; DCrash].
-
-Lemma torn_hole_delete :
-  abs (mem (drun torn_hole_delete_witness dinit)) 1%N 1%Z = Some 10%Z /\
-  log_get (dspec_log torn_hole_delete_witness []) 1%N 1%Z = None.
-Proof. vm_compute. split; reflexivity. Qed.
-
-(** ** Histories without torn-tail crashes: the hypothesis reduces to the one used before the
-    hole was modelled. *)
-Fixpoint dsafe_old (h : list dop) (d : dstate) : Prop :=
-  match h with
-  | [] => True
-  | o :: r =>
-      match o with
-      | DDelete _ _ _ => phase d = 0%N
-      | DSnapBegin => phase d = 0%N
-      | DSnapFail => False
-      | _ => True
-      end /\ dsafe_old r (fst (dstep d o))
-  end.
-
-Lemma hole_step d o : hole d = None -> o <> DCrashTorn -> hole (fst (dstep d o)) = None.
-Proof.
-  intros H Ho. destruct o as [b|ks lo hi| | | | | |i n| |]; cbn [dstep].
-  - rewrite (wal_append_nohole d _ H). reflexivity.
-  - destruct (filter (has_key (hot (mem d))) ks); [exact H|]. rewrite (wal_append_nohole d _ H). reflexivity.
-  - destruct (N.eqb (phase d) 0); [destruct (step (mem d) SnapBegin)|]; reflexivity.
-  - destruct (N.eqb (phase d) 1); [destruct (snap (mem d))|]; cbn; assumption.
-  - destruct (N.eqb (phase d) 2); cbn; assumption.
-  - destruct (N.eqb (phase d) 3); cbn; assumption.
-  - destruct (N.eqb (phase d) 1); cbn; assumption.
-  - destruct (step (mem d) (Compact i n)). cbn. assumption.
-  - cbn. rewrite H. reflexivity.
-  - congruence.
-Qed.
-
-Lemma tnext_nohole d o : hole d = None -> tnext d false o = false.
-Proof.
-  intros H. destruct o; cbn [tnext]; try reflexivity.
-  - unfold gh. rewrite H. destruct (N.eqb (phase d) 0); reflexivity.
-  - destruct (N.eqb (phase d) 3); reflexivity.
-Qed.
-
-Lemma dsafe_without_torn_gen h : forall d,
-  hole d = None -> ~ In DCrashTorn h -> dsafe_old h d -> dsafeT h d false.
-Proof.
-  induction h as [|o h IH]; intros d Hh Hn HS; [exact I|].
-  destruct HS as [Ho HS]. cbn [dsafeT]. split.
-  - destruct o; cbn [safe_op]; try exact Ho; try exact I.
-    + intros HT. discriminate.
-    + split; [reflexivity|]. unfold gh. rewrite Hh. reflexivity.
-    + exfalso. apply Hn. left. reflexivity.
-  - rewrite (tnext_nohole d o Hh). apply IH; [|intros Hin; apply Hn; right; exact Hin|exact HS].
-    apply hole_step; [exact Hh|]. intros E. apply Hn. left. exact E.
-Qed.
-
-Lemma dsafe_without_torn h : ~ In DCrashTorn h -> dsafe_old h dinit -> dsafe h dinit.
-Proof. intros Hn HS. apply dsafe_without_torn_gen; [reflexivity|exact Hn|exact HS]. Qed.
